@@ -56,8 +56,12 @@ func c12run(scalars, colls bool) {
 	numsMode := choose("nums", 3)   // absent, once, twice
 	labelsMode := choose("labels", 2)
 	ratioMode := choose("ratio", 3) // absent, in range, out of float32 range
-	seenMode := choose("seen", 3)   // absent, once, three times
-	multiMode := choose("multi", 3) // absent, once, three times
+	seenMode, multiMode := 0, 0
+	if !scalars {
+		// (kept out of the full product of HarnessC12All, which is large enough already)
+		seenMode = choose("seen", 3)   // absent, once, three times
+		multiMode = choose("multi", 3) // absent, once, three times
+	}
 	n0, n1 := zzverif.Int64("n0"), zzverif.Int64("n1")
 	if hPort {
 		args = append(args, "-port", zzverif.Literal(port, zzverif.StyleDecimal))
